@@ -375,7 +375,7 @@ theorem clip_refines {rb : RB} {a : AState} (wf : WF rb) (R : Refines rb a) (rec
   · rw [a1, a2]; exact wf.size
   · intro l x y; rw [a2, hcells]; exact wf.rows l x (by omega)
   · intro l c; rw [hcell]; exact wf.maskLB l c
-  · intro l c; rw [hcell, a3]; exact wf.maskUB l c
+  · intro l c x y z w; rw [hcell, a3]; exact wf.maskUB l c x (by omega) z (by omega)
   · rw [a3, a4]; exact wf.depth
   · rw [a1, a2]; exact hclip
   · rw [a1, a2, a4]; exact wf.frames
@@ -491,7 +491,7 @@ theorem mask_refines {rb : RB} {a : AState} (wf : WF rb) (R : Refines rb a) (m :
   refine ⟨⟨wf.size, fun l x y => hrows l (wf.rows l x y), ?_, ?_, wf.depth, wf.clip, wf.frames, wf.aborted, wf.fuelOut⟩,
     ⟨R.lines, R.cols, fun L C => (R.content L C).trans (hcont L C).symm, ?_, R.vc, R.xlLine, R.xlCol, R.clip, R.pen, ?_⟩⟩
   · intro l c; rw [hmd]; have := wf.maskLB l c; split <;> omega
-  · intro l c; rw [hmd]; have := wf.maskUB l c; show _ ≤ rb.depth; split <;> omega
+  · intro l c x y z w; rw [hmd]; have := wf.maskUB l c x y z w; show _ ≤ rb.depth; split <;> omega
   · intro L C
     show (a.masked L C || (inBuf a.lines a.cols L C && m.memb (L - a.xlLine) (C - a.xlCol))) = absMasked (Tickit.RB.mask rb m) L C
     rw [R.masked, R.lines, R.cols, R.xlLine, R.xlCol]
@@ -573,8 +573,11 @@ theorem setpen_refines {rb : RB} {a : AState} (wf : WF rb) (R : Refines rb a) (p
 
 theorem absMaskedAt_depth {rb : RB} (wf : WF rb) (L C : Int) : absMaskedAt rb rb.depth L C = absMasked rb L C := by
   unfold absMaskedAt
-  have := wf.maskUB L C
-  simp [this]
+  by_cases hb : inBuf rb.lines rb.cols L C = true
+  · have hb' := (inBuf_iff _ _ _ _).1 hb
+    have := wf.maskUB L C hb'.1 hb'.2.1 hb'.2.2.1 hb'.2.2.2
+    simp [this]
+  · unfold absMasked; simp [hb]
 
 theorem getCursor_some {rb : RB} {p : Int × Int} (h : getCursor rb = some p) : rb.vcSet = true ∧ p = (rb.vcLine, rb.vcCol) := by
   unfold getCursor at h
@@ -586,7 +589,7 @@ theorem save_refines {rb : RB} {a : AState} (wf : WF rb) (R : Refines rb a) :
     WF (RB.save rb) ∧ Refines (RB.save rb) (RBAbs.save a) := by
   refine ⟨⟨wf.size, wf.rows, wf.maskLB, ?_, ?_, wf.clip, ?_, wf.aborted, wf.fuelOut⟩,
     ⟨R.lines, R.cols, R.content, R.masked, R.vc, R.xlLine, R.xlCol, R.clip, R.pen, ?_⟩⟩
-  · intro l c; have := wf.maskUB l c; show (rb.cell l c).maskdepth ≤ rb.depth + 1; omega
+  · intro l c x y z w; have := wf.maskUB l c x y z w; show (rb.cell l c).maskdepth ≤ rb.depth + 1; omega
   · show rb.depth + 1 = ((_ :: rb.stack).length : Int); rw [wf.depth]; simp
   · intro f hf hp
     rcases List.mem_cons.1 hf with rfl | hf
@@ -608,7 +611,7 @@ theorem savepen_refines {rb : RB} {a : AState} (wf : WF rb) (R : Refines rb a) :
     WF (RB.savepen rb) ∧ Refines (RB.savepen rb) (RBAbs.savepen a) := by
   refine ⟨⟨wf.size, wf.rows, wf.maskLB, ?_, ?_, wf.clip, ?_, wf.aborted, wf.fuelOut⟩,
     ⟨R.lines, R.cols, R.content, R.masked, R.vc, R.xlLine, R.xlCol, R.clip, R.pen, ?_⟩⟩
-  · intro l c; have := wf.maskUB l c; show (rb.cell l c).maskdepth ≤ rb.depth + 1; omega
+  · intro l c x y z w; have := wf.maskUB l c x y z w; show (rb.cell l c).maskdepth ≤ rb.depth + 1; omega
   · show rb.depth + 1 = ((_ :: rb.stack).length : Int); rw [wf.depth]; simp
   · intro f hf hp
     rcases List.mem_cons.1 hf with rfl | hf
@@ -623,5 +626,157 @@ theorem savepen_refines {rb : RB} {a : AState} (wf : WF rb) (R : Refines rb a) :
       rw [R.masked]; exact (absMaskedAt_depth wf L C).symm
     · refine FramesRel_congr (rb := rb) ?_ _ _ _ R.stack
       intro d L C; rfl
+
+/-- The one thing the concrete `restore` cannot bring back: whether the cursor was set.  `restore` is safe in
+    `a` if the frame it pops is a pen-only one or the cursor is set now exactly if it was set at the `save`. -/
+def RestoreSafe (a : AState) : Prop :=
+  match a.stack with
+  | g :: _ => g.penOnly = true ∨ a.vc.isSome = g.vc.isSome
+  | [] => True
+
+theorem restore_fields {rb : RB} {f : Frame} {prev : List Frame} (h : rb.stack = f :: prev) :
+    (RB.restore rb).lines = rb.lines ∧ (RB.restore rb).cols = rb.cols ∧
+    (∀ l c, (RB.restore rb).cell l c =
+      if 0 ≤ l ∧ l < rb.lines ∧ 0 ≤ c ∧ c < rb.cols ∧ (rb.cell l c).maskdepth > rb.depth - 1
+      then { rb.cell l c with maskdepth := -1 } else rb.cell l c) ∧
+    (RB.restore rb).vcSet = rb.vcSet ∧
+    (RB.restore rb).vcLine = (if f.penOnly then rb.vcLine else f.vcLine) ∧
+    (RB.restore rb).vcCol = (if f.penOnly then rb.vcCol else f.vcCol) ∧
+    (RB.restore rb).xlLine = (if f.penOnly then rb.xlLine else f.xlLine) ∧
+    (RB.restore rb).xlCol = (if f.penOnly then rb.xlCol else f.xlCol) ∧
+    (RB.restore rb).clip = (if f.penOnly then rb.clip else f.clip) ∧
+    (RB.restore rb).pen = f.pen ∧ (RB.restore rb).depth = rb.depth - 1 ∧ (RB.restore rb).stack = prev ∧
+    (RB.restore rb).aborted = rb.aborted ∧ (RB.restore rb).fuelOut = rb.fuelOut := by
+  unfold RB.restore
+  rw [h]
+  cases hp : f.penOnly <;> simp [hp, RB.cell]
+
+theorem restore_refines {rb : RB} {a : AState} (wf : WF rb) (R : Refines rb a) (safe : RestoreSafe a) :
+    WF (RB.restore rb) ∧ Refines (RB.restore rb) (RBAbs.restore a) := by
+  have hs := R.stack
+  cases hrs : rb.stack with
+  | nil =>
+    rw [hrs] at hs
+    cases has : a.stack with
+    | cons g gs => rw [has] at hs; simp [FramesRel] at hs
+    | nil =>
+      have e1 : RB.restore rb = rb := by unfold RB.restore; rw [hrs]
+      have e2 : RBAbs.restore a = a := by unfold RBAbs.restore; rw [has]
+      rw [e1, e2]; exact ⟨wf, R⟩
+  | cons f prev =>
+    rw [hrs] at hs
+    cases has : a.stack with
+    | nil => rw [has] at hs; simp [FramesRel] at hs
+    | cons g rest =>
+      rw [has] at hs
+      unfold FramesRel at hs
+      obtain ⟨⟨fr1, fr2, fr3, fr4⟩, hrest⟩ := hs
+      obtain ⟨r1, r2, r3, r4, r5, r6, r7, r8, r9, r10, r11, r12, r13, r14⟩ := restore_fields hrs
+      have hsame : ∀ L C, SameButMask (rb.cell L C) ((RB.restore rb).cell L C) := by
+        intro L C; rw [r3]; split <;> simp [SameButMask]
+      obtain ⟨hcont, hrows⟩ := maskonly_facts (rb := rb) (rb' := RB.restore rb) r1 r2 hsame
+      have hmd : ∀ L C, ((RB.restore rb).cell L C).maskdepth =
+          if 0 ≤ L ∧ L < rb.lines ∧ 0 ≤ C ∧ C < rb.cols ∧ (rb.cell L C).maskdepth > rb.depth - 1 then -1
+          else (rb.cell L C).maskdepth := by
+        intro L C; rw [r3]; split <;> rfl
+      have hdlen : rb.depth = (prev.length : Int) + 1 := by rw [wf.depth, hrs]; simp
+      have hmaskedAt : ∀ d', d' ≤ rb.depth - 1 → ∀ L C, absMaskedAt (RB.restore rb) d' L C = absMaskedAt rb d' L C := by
+        intro d' hd' L C
+        unfold absMaskedAt absMasked
+        rw [r1, r2, hmd]
+        have lb := wf.maskLB L C
+        apply bool_ext
+        simp only [Bool.and_eq_true, decide_eq_true_eq, inBuf_iff]
+        constructor
+        · rintro ⟨⟨x, y⟩, z⟩
+          by_cases q : 0 ≤ L ∧ L < rb.lines ∧ 0 ≤ C ∧ C < rb.cols ∧ (rb.cell L C).maskdepth > rb.depth - 1
+          · rw [if_pos q] at y; omega
+          · rw [if_neg q] at y z; exact ⟨⟨x, y⟩, z⟩
+        · rintro ⟨⟨x, y⟩, z⟩
+          rw [if_neg (by omega)]; exact ⟨⟨x, y⟩, z⟩
+      have hmasked : ∀ L C, absMasked (RB.restore rb) L C = absMaskedAt rb (rb.depth - 1) L C := by
+        intro L C
+        rw [← hmaskedAt (rb.depth - 1) (by omega) L C]
+        unfold absMaskedAt absMasked
+        rw [r1, r2, hmd]
+        have lb := wf.maskLB L C
+        apply bool_ext
+        simp only [Bool.and_eq_true, decide_eq_true_eq]
+        constructor
+        · rintro ⟨x, y⟩; refine ⟨⟨x, y⟩, ?_⟩
+          have hb' := (inBuf_iff _ _ _ _).1 x
+          have ub := wf.maskUB L C hb'.1 hb'.2.1 hb'.2.2.1 hb'.2.2.2
+          split at y <;> split <;> omega
+        · rintro ⟨⟨x, y⟩, _⟩; exact ⟨x, y⟩
+      have hwf : WF (RB.restore rb) := by
+        refine ⟨?_, ?_, ?_, ?_, ?_, ?_, ?_, ?_, ?_⟩
+        · rw [r1, r2]; exact wf.size
+        · intro l x y; exact hrows l (wf.rows l x (by omega))
+        · intro l c; rw [hmd]; have := wf.maskLB l c; split <;> omega
+        · intro l c x y z w
+          rw [hmd, r11]
+          rw [r1] at y; rw [r2] at w
+          have ub := wf.maskUB l c x y z w
+          have lb := wf.maskLB l c
+          split <;> omega
+        · rw [r11, r12, hdlen]; omega
+        · rw [r1, r2, r9]
+          cases hp : f.penOnly with
+          | true => simp only [if_true]; exact wf.clip
+          | false => simp only [Bool.false_eq_true, if_false]; exact wf.frames f (by rw [hrs]; simp) hp
+        · rw [r1, r2, r12]; intro f' hf'; exact wf.frames f' (by rw [hrs]; exact List.mem_cons_of_mem _ hf')
+        · rw [r13]; exact wf.aborted
+        · rw [r14]; exact wf.fuelOut
+      refine ⟨hwf, ?_⟩
+      have hstack : FramesRel (RB.restore rb) (rb.depth - 1) prev rest :=
+        FramesRel_congr_lt _ _ _ (fun d' hd' L C => hmaskedAt d' (by omega) L C) hrest
+      have hv := R.vc
+      unfold RestoreSafe at safe
+      rw [has] at safe
+      unfold RBAbs.restore
+      rw [has]
+      simp only
+      cases hp : g.penOnly with
+      | true =>
+        have hpf : f.penOnly = true := fr1.trans hp
+        simp only [if_true]
+        rw [hpf] at r5 r6 r7 r8 r9
+        simp only [if_true] at r5 r6 r7 r8 r9
+        refine ⟨R.lines.trans r1.symm, R.cols.trans r2.symm, fun L C => (R.content L C).trans (hcont L C).symm,
+          fun L C => (fr3 L C).trans (hmasked L C).symm, ?_, R.xlLine.trans r7.symm, R.xlCol.trans r8.symm,
+          fun L C => by rw [r9]; exact R.clip L C, fr2.symm.trans r10.symm, ?_⟩
+        · show a.vc = getCursor _
+          unfold getCursor; rw [r4, r5, r6]; exact hv
+        · show FramesRel (RB.restore rb) (RB.restore rb).depth (RB.restore rb).stack rest
+          rw [r11, r12]; exact hstack
+      | false =>
+        have hpf : f.penOnly = false := fr1.trans hp
+        simp only [Bool.false_eq_true, if_false]
+        rw [hpf] at r5 r6 r7 r8 r9
+        simp only [Bool.false_eq_true, if_false] at r5 r6 r7 r8 r9
+        obtain ⟨x1, x2, x3, x4⟩ := fr4 hpf
+        refine ⟨R.lines.trans r1.symm, R.cols.trans r2.symm, fun L C => (R.content L C).trans (hcont L C).symm,
+          fun L C => (fr3 L C).trans (hmasked L C).symm, ?_, x1.symm.trans r7.symm, x2.symm.trans r8.symm,
+          fun L C => by rw [r9]; exact x3 L C, fr2.symm.trans r10.symm, ?_⟩
+        · show g.vc = getCursor _
+          unfold getCursor; rw [r4, r5, r6]
+          rcases safe with s | s
+          · rw [hp] at s; cases s
+          · unfold getCursor at hv
+            cases hvs : rb.vcSet with
+            | true =>
+              rw [hvs] at hv; simp only [if_true] at hv ⊢
+              rw [hv] at s
+              cases hg : g.vc with
+              | none => rw [hg] at s; simp at s
+              | some p => rw [x4 p hg]
+            | false =>
+              rw [hvs] at hv; simp only [Bool.false_eq_true, if_false] at hv ⊢
+              rw [hv] at s
+              cases hg : g.vc with
+              | none => rfl
+              | some p => rw [hg] at s; simp at s
+        · show FramesRel (RB.restore rb) (RB.restore rb).depth (RB.restore rb).stack rest
+          rw [r11, r12]; exact hstack
 
 end Tickit.RB
